@@ -44,7 +44,7 @@ def mem_preset(rng, n=None):
     cells = {}
     for k in range(rng.randrange(0, 24) if n is None else n):
         cells[DATA + rng.randrange(0, 32)] = rng.choice([0, 1, 0x7F, 0x80, 0xFF, rng.randrange(256)])
-    s = [rng.randrange(1, 256) for _ in range(rng.randrange(0, 6))]
+    s = [rng.choice([0x7F, 0x80, 0x81, 0xFF, 0x41, rng.randrange(1, 256)]) for _ in range(rng.randrange(0, 6))]
     for j, c in enumerate(s):
         cells[DATA + 32 + j] = c
     if rng.random() < 0.8:
